@@ -1063,6 +1063,9 @@ class Array(Taggable):
         Returns a copy of *self* with *iaxis*-th axis tagged with *tags*.
         """
         new_axis = self.axes[iaxis].tagged(tags)
+        if iaxis < 0:
+            # axes[:iaxis] + axes[iaxis+1:] is not "all the others" for iaxis == -1
+            iaxis += len(self.axes)
         if new_axis is not self.axes[iaxis]:
             return self.copy(
                 axes=(*self.axes[:iaxis], new_axis, *self.axes[iaxis+1:]))
